@@ -629,10 +629,28 @@ func (g *lineGen) rawFile(lines []string, junk bool) (string, bool) {
 var fxEntries = []string{"msg", "err", "iferr", "ifnil", "write", "cmdnone", "cmdbad"}
 var fxWriters = []string{"def", "out", "fail"}
 
+// axEnds: ends of an `ax` process other than a direct atexit.Exit(n): M / E / I / N = FatalMsg, FatalError, FatalIfError(err),
+// FatalIfError(nil); P<incl>:<args> = Parse of the vector on a command line with the options n/name (string), a (flag),
+// i/int (int8) - malformed vectors, help and version (exit), valid ones (Parse returns, nothing runs)
+var axEnds = func() []string {
+	out := []string{"M", "E", "I", "N"}
+	for _, v := range [][]string{nil, {"--nosuch"}, {"-Q"}, {"-n"}, {"--name"}, {"-an"}, {"-a=1"}, {"--a"}, {"-i", "300"}, {"-i", "5"}, {"--int=-129"},
+		{"--int=0x7f", "p"}, {"-h"}, {"--help"}, {"-v"}, {"-V"}, {"--version"}, {"--Version"}, {"-ah"}, {"-hv"}, {"-vQ"}, {"@nofile"}, {"@."}, {"--", "-Q"},
+		{"-", "--nosuch"}, {"-n", "x", "--name"}, {"--name=x", "-a", "pos", "--nosuch"}, {"--help=1"}, {"-a", "-a", "--name", "-h"}} {
+		out = append(out, "P0:"+encList(v), "P1:"+encList(v))
+	}
+	return out
+}()
+
 // genAx: a history of atexit.Register / Unregister calls followed by Exit(status).
 func genAx(r *hx.Rng) string {
 	var sb strings.Builder
-	fmt.Fprintf(&sb, "ax %d", hx.Pick(r, []int{0, 1, 1, 2, 3, 7, 42, 125}))
+	if r.Chance(1, 3) {
+		// the process ends through the command line package: an exported fatal entry point, or Parse of a small vector
+		sb.WriteString("ax " + hx.Pick(r, axEnds))
+	} else {
+		fmt.Fprintf(&sb, "ax %d", hx.Pick(r, []int{0, 1, 1, 2, 3, 7, 42, 125}))
+	}
 	nops := r.Range(0, 9)
 	if r.Chance(1, 12) {
 		nops = hx.Pick(r, []int{16, 17, 33, 70})
@@ -726,7 +744,54 @@ func genLongLine(r *hx.Rng) string {
 	return sb.String()
 }
 
+// genGs: a GeneralValue of a kind whose %v text the model owns, used directly: initial contents, then Set calls (the last
+// one may be refused), String() after each.
+func genGs(r *hx.Rng) string {
+	g := &lineGen{r: r, long: r.Chance(1, 20)}
+	names := []string{"bool", "int", "int8", "int16", "int32", "int64", "uint", "uint8", "uint16", "uint32", "uint64", "string", "string", "string"}
+	var o gopt
+	o.base = baseByName(hx.Pick(r, names))
+	o.slice = r.Chance(1, 2)
+	o.kind = o.base.name
+	if o.slice {
+		o.kind = "[]" + o.kind
+	}
+	var defs []string
+	if o.slice {
+		for i, n := 0, r.Intn(3); i < n; i++ {
+			defs = append(defs, g.value(&o, true))
+		}
+	} else {
+		defs = []string{g.value(&o, true)}
+	}
+	var sb strings.Builder
+	full := r.Bool() // gf: the history goes on after a refused Set
+	if full {
+		sb.WriteString("gf " + o.kind + " " + encList(defs))
+	} else {
+		sb.WriteString("gs " + o.kind + " " + encList(defs))
+	}
+	for i, n := 0, r.Range(0, 6); i < n; i++ {
+		if o.base.name == "string" && r.Chance(1, 3) {
+			sb.WriteString(" " + hx.Hex([]byte(hx.Pick(r, []string{"", "", ", ", "\"", "a, b", "\\", "%v", "%!s(MISSING)", "\n"}))))
+			continue
+		}
+		if r.Chance(1, 8) && o.base.name != "string" || full && o.base.name != "string" && r.Chance(1, 3) {
+			sb.WriteString(" " + hx.Hex([]byte(g.value(&o, false)))) // refused: a gs history ends here
+			if full {
+				continue
+			}
+			break
+		}
+		sb.WriteString(" " + hx.Hex([]byte(g.value(&o, true))))
+	}
+	return sb.String()
+}
+
 func genLine(r *hx.Rng) string {
+	if c := *r; c.Chance(1, 60) { // decided on a copy: the stream of every other line stays what it was
+		return genGs(r)
+	}
 	if r.Chance(1, 400) {
 		return "fx " + hx.Pick(r, fxEntries) + " " + hx.Pick(r, fxWriters)
 	}
@@ -856,7 +921,11 @@ func genLine(r *hx.Rng) string {
 		sb.WriteString(" " + hx.Hex([]byte(a)))
 	}
 	if twice {
-		sb.WriteString(" B")
+		if len(g.args2)%3 != 0 {
+			sb.WriteString(" C") // the option variables are also compared after the first Parse
+		} else {
+			sb.WriteString(" B")
+		}
 		for _, a := range g.args2 {
 			sb.WriteString(" " + hx.Hex([]byte(a)))
 		}
